@@ -22,14 +22,14 @@ PROPS = {
         corr=[dict(script='corr_slurry_state.py', n=60, n_thorough=600),
               dict(script='corr_slurry.py', n=25, n_thorough=300, args=['--parts', 'regen,getdx,curves,point,scalars'])],
         search='C07.py', budget_quick=120, budget_thorough=3000, budget_broken=3000,
-        partial=['C07_no_stale assumes [all_valid]: the two grading ratios are non-zero and are read back exactly from a generated '
-                 'grading (ratio recovery, property C12 of create_fracs over R) at every abstract state of the history; that premise is '
-                 'searched numerically (tools/search/C07.py, C12.py), not proved'],
+        own_files_extra=['Lemmas/LC07b.v', 'Lemmas/LC12e.v'],
+        partial=[],
         level_text='Proof (refinement, induction over the operation list): in the executable state-machine model of SlurryObj.Slurry '
                    '(parameters, both dirty flags, cached grading and curves; 15 operations) every read of every reachable state returns '
                    'exactly what the abstract state (current parameters + grading ratios) determines, i.e. what a freshly built object '
                    'returns, and histories with the same final abstract state are indistinguishable (C07_no_stale, C07_step, C07_init, '
-                   'C07_no_trace). Unbounded in history length. The ratio-recovery premise is an assumption (partial).',
+                   'C07_no_trace). Unbounded in history length. The ratio-recovery premise [valid] is itself proved (C07_ratio_recovery, from the C12 theorems about ' 
+                   'create_fracs) for grading ratios above 1 and D50 above the pseudo-liquid limit, giving C07_no_stale_physical with physical premises only.',
         level_note='The state machine is hand-written (coq/Models/SlurryState.v over the hand models Fracs/Graded/SlurryCalc and the generated '
                    'numeric model) and is tied to the code by running operation sequences on a real Slurry and on the extracted model, '
                    'comparing both dirty flags after every operation and every value read, bit for bit. A setter that stops raising a flag '
@@ -220,5 +220,21 @@ PROPS = {
                    'default, with the default budget 20); the public value is that run\'s value. Convergence on E and uniqueness are partial.',
         level_note='Loop translated as structural recursion on max_steps returning (value, converged); value compared bit-exactly with the Python for '
                    'max_steps in {0,1,3,10,20,50}.',
+    ),
+    'C12': dict(
+        own_files=['Lemmas/LC12.v', 'Lemmas/LC12b.v', 'Lemmas/LC12c.v', 'Lemmas/LC12d.v', 'Lemmas/LC12e.v', 'Props/C12.v'],
+        corr=[dict(script='corr_slurry.py', n=60, n_thorough=1500, args=['--parts', 'fracs,getdx,regen'])],
+        search='C12.py', budget_quick=400, budget_thorough=20000,
+        partial=['get_dx increasing over the WHOLE range (across nodes and in the two extrapolated ends) is proved segment-wise (C12_interpolation_monotone) '
+                 'but not assembled into one global monotonicity statement; searched on a 50-point grid per object',
+                 'the 4-point inputs are covered by the general theorem C12_structure + C12_skip (any number of points); a closed corollary like '
+                 'C12_three_point is written only for the 3-point input'],
+        level_text='Proof (model of create_fracs, any number of input points and subdivisions): after discarding points below the pseudo-liquid limit '
+                   'the result is start point (iff the log-linear distribution reaches the limit at a positive fraction, and then exactly there) ++ n '
+                   'interior nodes and the input point per remaining interval ++ one top point at most at 0.999; strictly increasing in fraction and '
+                   'in diameter; count formula; every remaining input point is a node. For the D15/D50/D85 input with D50 above the limit: 12 or 11 '
+                   'nodes, and get_dx returns exactly D15 (interpolated or extrapolated on the same log-linear line), D50 and D85. get_dx rejects '
+                   'fractions outside (0,1) and returns node values at nodes.',
+        level_note='Hand-written model compared bit for bit (whole dict) with create_fracs on 3-, 4- and 5-point inputs, with get_dx and generate_GSD.',
     ),
 }
